@@ -71,6 +71,130 @@ static void do_fracture(const J& g, W& w) {
     free_polys(res);
 }
 
+// C01: a polygon longer than the vertex limit goes through write_gds(max_points) and read_gds;
+// the re-loaded plain polygons must cover the same region
+static std::string g_tmpdir = "/tmp";
+static void do_gdsfrac(const J& g, W& w) {
+    double S = (double)g["s"].i();
+    Library lib = {};
+    lib.init("L", 1e-6, 1e-6 / S);
+    Cell* cell = (Cell*)allocate_clear(sizeof(Cell));
+    cell->name = copy_string("C", NULL);
+    lib.cell_array.append(cell);
+    Polygon* p = mk(g["p"]);
+    p->tag = make_tag(7, 3);
+    set_gds_property(p->properties, 5, "pq");
+    cell->polygon_array.append(p);
+    std::string fn = g_tmpdir + "/gdsfrac_" + std::to_string(getpid()) + ".gds";
+    tm t = {};
+    t.tm_year = 100;
+    t.tm_mday = 1;
+    ErrorCode e1 = lib.write_gds(fn.c_str(), (uint64_t)g["limit"].i(), &t);
+    ErrorCode e2 = ErrorCode::NoError;
+    Library back = read_gds(fn.c_str(), 0, 0, NULL, &e2);
+    bool ok = true, same = back.cell_array.count == 1;
+    Array<Polygon*> res = {};
+    if (same) res.extend(back.cell_array[0]->polygon_array);
+    log_polys(w, "pieces", res, S, ok);
+    for (uint64_t i = 0; i < res.count; i++) {
+        const Property* q = res[i]->properties;
+        same = same && res[i]->tag == p->tag && q && strcmp(q->name, "S_GDS_PROPERTY") == 0 && q->next == NULL &&
+               q->value && q->value->next &&
+               q->value->unsigned_integer == 5 && q->value->next->count >= 2 &&
+               memcmp(q->value->next->bytes, "pq", 2) == 0 &&
+               res[i]->repetition.type == RepetitionType::None;
+    }
+    w.kb("same_meta", same).kb("lat", ok).kv("err", (int64_t)e1 * 100 + (int64_t)e2);
+    res.clear();
+    back.free_all();
+    lib.free_all();
+    unlink(fn.c_str());
+}
+
+// C01: a non-simple path is stored as polygons; they must cover the region of its outline
+static void do_gdspath(const J& g, W& w) {
+    double S = (double)g["s"].i();
+    Library lib = {};
+    lib.init("L", 1e-6, 1e-6 / S);
+    Cell* cell = (Cell*)allocate_clear(sizeof(Cell));
+    cell->name = copy_string("C", NULL);
+    lib.cell_array.append(cell);
+    const J& sp = g["spine"];
+    size_t n = g["widths"].size();
+    std::vector<double> wd(n), of(n);
+    std::vector<Tag> tags(n);
+    for (size_t k = 0; k < n; k++) {
+        wd[k] = (double)g["widths"][k].i();
+        of[k] = (double)g["offs"][k].i();
+        tags[k] = make_tag(7 + (uint32_t)k, 3);
+    }
+    Array<Vec2> pts = {};
+    for (size_t k = 1; k < sp.size(); k++)
+        pts.append(Vec2{(double)sp[k][(size_t)0].i(), (double)sp[k][(size_t)1].i()});
+    bool ok = true;
+    Array<Polygon*> pre = {};
+    ErrorCode e0 = ErrorCode::NoError;
+    if (g["robust"].t()) {
+        RobustPath* r = (RobustPath*)allocate_clear(sizeof(RobustPath));
+        r->init(Vec2{(double)sp[(size_t)0][(size_t)0].i(), (double)sp[(size_t)0][(size_t)1].i()}, n, wd.data(),
+                of.data(), 0.01, 1000, tags.data());
+        for (uint64_t k = 0; k < pts.count; k++) r->segment(pts[k], NULL, NULL, false);
+        r->simple_path = false;
+        for (size_t k = 0; k < n; k++) r->elements[k].end_type = (EndType)g["end"].i();
+        set_gds_property(r->properties, 5, "pq");
+        cell->robustpath_array.append(r);
+        e0 = r->to_polygons(false, 0, pre);
+    } else {
+        FlexPath* f = (FlexPath*)allocate_clear(sizeof(FlexPath));
+        f->init(Vec2{(double)sp[(size_t)0][(size_t)0].i(), (double)sp[(size_t)0][(size_t)1].i()}, n, wd.data(),
+                of.data(), 0.01, tags.data());
+        f->segment(pts, NULL, NULL, false);
+        f->simple_path = false;
+        for (size_t k = 0; k < n; k++) {
+            f->elements[k].end_type = (EndType)g["end"].i();
+            f->elements[k].join_type = (JoinType)g["join"].i();
+        }
+        set_gds_property(f->properties, 5, "pq");
+        cell->flexpath_array.append(f);
+        e0 = f->to_polygons(false, 0, pre);
+    }
+    pts.clear();
+    log_polys(w, "pre", pre, 16 * S, ok);        // outline before saving, 1/16 grid unit
+    bool ignore = true;
+    std::string fn = g_tmpdir + "/gdspath_" + std::to_string(getpid()) + ".gds";
+    tm t = {};
+    t.tm_year = 100;
+    t.tm_mday = 1;
+    ErrorCode e1 = lib.write_gds(fn.c_str(), 0, &t);
+    ErrorCode e2 = ErrorCode::NoError;
+    Library back = read_gds(fn.c_str(), 0, 0, NULL, &e2);
+    bool lat_ok = true, same = back.cell_array.count == 1;
+    Array<Polygon*> res = {};
+    if (same) {
+        res.extend(back.cell_array[0]->polygon_array);
+        same = back.cell_array[0]->flexpath_array.count == 0 && back.cell_array[0]->robustpath_array.count == 0;
+    }
+    log_polys(w, "post", res, S, lat_ok);
+    w.key("ptags").begin_arr();
+    for (uint64_t i = 0; i < res.count; i++) w.i((int64_t)get_layer(res[i]->tag));
+    w.end_arr();
+    w.key("pretags").begin_arr();
+    for (uint64_t i = 0; i < pre.count; i++) w.i((int64_t)get_layer(pre[i]->tag));
+    w.end_arr();
+    for (uint64_t i = 0; i < res.count; i++) {
+        const Property* q = res[i]->properties;
+        same = same && q && strcmp(q->name, "S_GDS_PROPERTY") == 0 && q->next == NULL && q->value &&
+               q->value->next && q->value->unsigned_integer == 5 && get_type(res[i]->tag) == 3;
+    }
+    (void)ignore;
+    w.kb("same_meta", same).kb("lat", lat_ok).kv("err", (int64_t)e0 * 10000 + (int64_t)e1 * 100 + (int64_t)e2);
+    free_polys(pre);
+    res.clear();
+    back.free_all();
+    lib.free_all();
+    unlink(fn.c_str());
+}
+
 static void do_slice(const J& g, W& w) {
     Polygon* p = mk(g["p"]);
     double S = (double)g["s"].i();
@@ -109,6 +233,7 @@ int main(int argc, char** argv) {
     if (argc < 3) return 2;
     gdstk::set_error_logger(NULL);
     std::vector<std::string> lines = read_lines(argv[1]);
+    if (argc > 3) g_tmpdir = argv[3];
     g_timeout_s = 30;
     return supervise(lines, argv[2], [&](int64_t, const std::string& line, FILE* out) {
         J g = jparse(line);
@@ -117,6 +242,8 @@ int main(int argc, char** argv) {
         const std::string& k = g["k"].s();
         if (k == "bool") do_bool(g, w);
         else if (k == "fracture") do_fracture(g, w);
+        else if (k == "gdsfrac") do_gdsfrac(g, w);
+        else if (k == "gdspath") do_gdspath(g, w);
         else if (k == "slice") do_slice(g, w);
         else if (k == "offset") do_offset(g, w);
         w.end_obj();
